@@ -53,6 +53,15 @@ type Case struct {
 	// SpecialIsBanner: the scripted answers in Special only add a reload banner to the reload dialogue
 	// (confirmation / `do reload in 2` lines): the banner oracle applies. Class: "one-prompt", "two-prompt"
 	SpecialIsBanner string `json:"special_is_banner,omitempty"`
+	// Multi: SEVERAL banners in ONE answer (SpecialIsBanner = "multi"): shape and messages, for the oracle
+	Multi *Multi `json:"multi,omitempty"`
+}
+
+// Multi describes an answer that carries two reload banners (the raw answer is in Special).
+type Multi struct {
+	Line  string   `json:"line"`  // the physical line whose answer carries them ("sh run": while the configuration is printed)
+	Shape string   `json:"shape"` // DD, BB, BD, AD, AC, AA, shrun-plain, shrun-prompt
+	Msgs  []string `json:"msgs"`
 }
 
 func bannerText(msg string) string { return "\n\n\n" + bell + "***\n***" + msg + "\n***\n" }
